@@ -618,6 +618,11 @@ MUTANTS = [
             }
 """)]},
     # ---------------- neutral (behaviour preserving) edits: must stay silent ----------------
+    {"id": "n-c05-rename-awaiting-helper", "property": "C05", "neutral": True, "also": ["C01", "C20"],
+     "edits": [("src/pdu_loop/frame_element/mod.rs", "unsafe fn is_awaiting_response(", "unsafe fn is_sent(", ),
+               ("src/pdu_loop/storage.rs", "FrameElement::<0>::is_awaiting_response(frame)", "FrameElement::<0>::is_sent(frame)")]},
+    {"id": "c20-lookup-any-claimed-slot", "property": "C20", "expect": "C20.S8|lookup:state-test-too-wide", "also": ["C01", "C05"],
+     "edits": [("src/pdu_loop/frame_element/mod.rs", "        state == FrameState::Sent\n", "        state != FrameState::None\n")]},
     {"id": "n-c05-split-filter", "property": "C05", "neutral": True, "also": ["C01", "C02"],
      "edits": [("src/pdu_loop/pdu_rx.rs", """        if raw_packet.ethertype() != ETHERCAT_ETHERTYPE || raw_packet.src_addr() == self.source_mac
         {
@@ -741,6 +746,14 @@ MUTANTS = [
                ("src/dc.rs", "            let split_point = parents_it\n                .find(|subdevice| {", "            let split_point = ancestors\n                .iter()\n                .rfind(|subdevice| {")]},
     {"id": "n-c17-rename-fold", "property": "C17", "neutral": True,
      "edits": [("src/subdevice/ports.rs", ".fold(0u32, |total, delta| total.saturating_add(delta))", ".fold(0u32, |sum_so_far, d| sum_so_far.saturating_add(d))")]},
+    {"id": "c18-round-terms-separately", "property": "C18", "expect": "C18.cfg|register-value-table",
+     "edits": [("src/subdevice_group/mod.rs", "                system_time.wrapping_add(first_pulse_delay) / sync0_period * sync0_period;", "                (system_time / sync0_period * sync0_period).wrapping_add(first_pulse_delay / sync0_period * sync0_period);")]},
+    {"id": "n-c18-start-sub-rem", "property": "C18", "neutral": True,
+     "edits": [("src/subdevice_group/mod.rs", "            let start_time =\n                system_time.wrapping_add(first_pulse_delay) / sync0_period * sync0_period;", "            let first_pulse = system_time.wrapping_add(first_pulse_delay);\n            let start_time = first_pulse - first_pulse % sync0_period;")]},
+    {"id": "n-c18-start-named-sum", "property": "C18", "neutral": True,
+     "edits": [("src/subdevice_group/mod.rs", "            let start_time =\n                system_time.wrapping_add(first_pulse_delay) / sync0_period * sync0_period;", "            let first_pulse = system_time.wrapping_add(first_pulse_delay);\n            let cycles = first_pulse / sync0_period;\n            let start_time = sync0_period * cycles;")]},
+    {"id": "c14-early-ok-when-alias-unchanged", "property": "C14", "expect": "C14.alias|alias-then-checksum",
+     "edits": [("src/subdevice/eeprom.rs", "            chunk[STATION_ALIAS_POSITION].copy_from_slice(&new_alias.to_le_bytes());\n", "            if chunk[STATION_ALIAS_POSITION] == new_alias.to_le_bytes() {\n                return Ok(());\n            }\n\n            chunk[STATION_ALIAS_POSITION].copy_from_slice(&new_alias.to_le_bytes());\n")]},
     {"id": "n-c18-reorder-range-checks", "property": "C18", "neutral": True,
      "edits": [("src/subdevice_group/mod.rs", """        let sync0_period = u64::from(u32::try_from(sync0_period.as_nanos())?);
 
